@@ -281,7 +281,7 @@ def alloc_trace(mops):
         out.append(nxt)
         if o[0] == 1:
             nxt += o[1] + 1
-        elif (o[0] == 2 and o[2] != ["LID"]) or o[0] in (4, 7):
+        elif o[0] in (2, 4, 7):              # a constructor allocates the block's own list, with or without a given one
             nxt += 1
         elif o[0] == 3:
             nxt += o[2] + 1
@@ -308,6 +308,7 @@ def compare_with_model(chk, kind, r):
             patched.append(o)
         elif o[0] == 2 and o[2] == ["LID"]:
             patched.append([2, o[1], [last_list]])
+            nxt += 1
         else:
             if o[0] == 2 or o[0] == 4 or o[0] == 7:
                 nxt += 1
@@ -355,7 +356,7 @@ def run(chk):
                 "(0-2 items, one of them wholly missing), add, remove, in-place edit of an item's arrays, `a.tracks = b.tracks`, "
                 "encode; after EVERY operation: identity of every instance's items and the sha of its encoding; oracle: only the "
                 "target instance changes (an edited object the caller himself placed in two blocks excepted), a block built "
-                "without items is empty; control experiments (the same history on A with and without a block B that receives A's own item objects under other channels, with direct edits of A's public item list); plus pairs of events / tracks built from ONE caller-side source of numbers (list, tuple, arrays of other dtypes, array.array, memoryview, __array__ provider); non-trivial = >= 2 instances exist at some point")
+                "without items is empty; control experiments (the same history on A with and without a block B that receives A's own item objects under other channels, with direct edits of A's public item list); plus one caller-side LIST of items given to two blocks through every bulk entry point (list setters, add_platforms, list-taking constructors), then each block and the list edited in turn; plus pairs of events / tracks built from ONE caller-side source of numbers (list, tuple, arrays of other dtypes, array.array, memoryview, __array__ provider); non-trivial = >= 2 instances exist at some point")
     scripts = []
     creates = [("new",), ("decode", 0), ("decode", 1), ("decode", 2), ("new_given",)]
     edits = [("add", 1), ("add", 2), ("remove", 1, 0), ("remove", 2, 1), ("edit", 1, 0), ("edit", 1, 1), ("edit", 2, 0),
@@ -386,6 +387,7 @@ def run(chk):
     container_fetches(chk, rng)
     shared_sources(chk, rng)
     shared_item_control(chk, rng)
+    callers_lists(chk, rng)
 
 
 def container_fetches(chk, rng):
@@ -536,6 +538,73 @@ def shared_sources(chk, rng):
                 chk.violation("C20 %s: two objects built by separate constructor calls from the same %s: %s" % (cname, sname, found), what, True)
                 if chk.n_found() >= 3:
                     return
+
+
+def callers_lists(chk, rng):
+    """ONE list of items, made by the caller, handed to two separately created blocks through every bulk entry point
+    (tracks = list, platforms = list, add_platforms(list), the constructors that take a list): afterwards adding to /
+    removing from one block shows neither in the other block nor in the caller's list, and what the caller does to his
+    list afterwards shows in neither block.  (The ITEM objects are in both blocks by the caller's own doing; their
+    containers are not.)"""
+    from basictdf.tdfForcePlatformsCalibration import ForcePlatformsCalibrationDataBlock
+    from basictdf.tdfOpticalSystem import OpticalSetupBlock
+    ways = {"D3": [("tracks = L", lambda ad, b, L: setattr(b, "tracks", L))],
+            "FT": [("tracks = L", lambda ad, b, L: setattr(b, "tracks", L))],
+            "PD": [("platforms = L", lambda ad, b, L: setattr(b, "platforms", L))],
+            "PC": [("add_platforms(L)", lambda ad, b, L: b.add_platforms(L)),
+                   ("platforms = pairs", lambda ad, b, L: setattr(b, "platforms", L)),
+                   ("constructor", None)],
+            "OS": [("constructor", None)]}
+    for kind, entry in ways.items():
+        for name, put in entry:
+            for nitems in (1, 2, 3):
+                for second in ("same way", "item by item"):
+                    ad = Adapter(kind, rng)
+                    its = [ad.item() for _ in range(nitems)]
+                    L = [(10 + j, it) for j, it in enumerate(its)] if name == "platforms = pairs" else list(its)
+                    L0 = list(L)
+                    log = []
+
+                    def fill(how):
+                        if how == "item by item":
+                            b = ad.new()
+                            for it in its:
+                                ad.add(b, it)
+                            return b
+                        if put is None:
+                            return ForcePlatformsCalibrationDataBlock(platforms=L) if kind == "PC" else OpticalSetupBlock(channels=L)
+                        b = ad.new()
+                        put(ad, b, L)
+                        return b
+
+                    def view():
+                        return ([id(x) for x in ad.items(A)], sha(A), [id(x) for x in ad.items(B)], sha(B), [id(x) if not isinstance(x, tuple) else (x[0], id(x[1])) for x in L])
+                    chk.note_case(("caller's list", kind, name, nitems, second), True)
+                    chk.count("one caller-side list given to two blocks: %s" % name)
+                    what = {"kind": kind, "entry_point": name, "items": nitems, "second_block_filled": second}
+                    try:
+                        A = fill("same way")
+                        B = fill(second)
+                        v0 = view()
+                        steps = [("A gets one more item", lambda: ad.add(A), (0, 1)), ("the first item is removed from A", lambda: ad.remove(A, 0), (0, 1)),
+                                 ("the caller appends to his list", lambda: L.append(L0[0]), (4,)), ("the caller empties his list", lambda: L.clear(), (4,)),
+                                 ("B gets one more item", lambda: ad.add(B), (2, 3))]
+                        for desc, act, may in steps:
+                            act()
+                            log.append(desc)
+                            v1 = view()
+                            moved = [k for k in range(5) if v0[k] != v1[k] and k not in may]
+                            if moved:
+                                who = {0: "block A's items", 1: "block A's encoding", 2: "block B's items", 3: "block B's encoding", 4: "the caller's own list"}
+                                chk.violation("C20 %s: two blocks filled from one caller-side list through %s (the second %s): after %r, %s changed" %
+                                              (kind, name, second, log, " and ".join(who[k] for k in moved)), dict(what, steps=list(log)), True)
+                                break
+                            v0 = v1
+                    except Exception as e:
+                        chk.violation("C20 %s: two blocks filled from one caller-side list through %s: %s after %r" % (kind, name, common.exc_info(e), log),
+                                      dict(what, steps=list(log)), True)
+                    if chk.n_found() >= 3:
+                        return
 
 
 def shared_item_control(chk, rng):
